@@ -246,7 +246,7 @@ ExpectStep(st, a) ==
           \* rtk: 0 compile-time bounds, 1 RT_TIMES(lo, hi), 2 RT_TIMES(hi) = exactly hi, 3 RT_TIMES(AT_LEAST(lo)), 4 RT_TIMES(AT_MOST(hi))
           lo  == CASE tab.rtk = 0 -> tab.lo [] tab.rtk = 1 -> a[18] [] tab.rtk = 2 -> a[19] [] tab.rtk = 3 -> a[18] [] OTHER -> 0
           hi  == CASE tab.rtk = 0 -> tab.hi [] tab.rtk = 1 -> a[19] [] tab.rtk = 2 -> a[19] [] tab.rtk = 3 -> 99 [] OTHER -> a[19]
-          qs  == SubSeq(<<a[20], a[21]>>, 1, tab.nq)
+          qs  == SubSeq(<<a[20], a[21], 6 - a[20] - a[21]>>, 1, tab.nq)      \* IN_SEQUENCE of all three: the third is the remaining one
           pt0 == SubSeq(<<<<a[4], a[5]>>, <<a[6], a[7]>>, <<0, 0>>>>, 1, tab.npar)
           pt  == CASE tab.pm = 0 -> pt0
                    [] tab.pm = 2 -> <<<<1, 1>>>>
